@@ -406,7 +406,7 @@ class BinaryQuadraticModel(QuadraticViewsMixin):
         return new
 
     def __pos__(self: 'BinaryQuadraticModel') -> 'BinaryQuadraticModel':
-        return self
+        return self.copy()
 
     def __pow__(self, other: int) -> 'BinaryQuadraticModel':
         if isinstance(other, int):
